@@ -48,6 +48,10 @@ def newSigil : Kind → Nat
   | .room => 33
   | _ => 36
 
+/-- `VoipVersionId: TryFrom<UInt>` (`voip_version_id::validate`): only `0` (stored as `V0`, whose
+string form is `"0"`). -/
+def voipVersionFromUInt (u : Nat) : Res Str := if u ≠ 0 then .err else .ok [48]
+
 /-! ## `OwnedBase64PublicKey::with_bytes` -/
 
 /-- The standard base64 alphabet (`base64::alphabet::STANDARD`), symbol `i` (taken mod 64). -/
